@@ -56,6 +56,8 @@ def structures(tier):
     for top in itertools.product((False, True), repeat=3):
         sts.append({'kind': 'dm', 'top': list(top), 'full': tier == 'thorough'})
     sts.append({'kind': 'dm2'})
+    for first in ('same-indices', 'other-indices', 'none'):
+        sts.append({'kind': 'two-tables', 'first': first})
     sts.append({'kind': 'date'})
     return sts
 
@@ -131,7 +133,57 @@ def _popcount(bits):
     return tot
 
 
+def run_two_tables(ctx, st):
+    """two dumps in one process: a record of the second dump is decoded against the second dump's string table, whatever
+    was decoded against another table before (same string indices, other indices, or nothing)"""
+    from pykdebugparser.os_log_event import OsLogEvent
+    A = dict(STRINGS)
+    B = {k: v + '#B' for k, v in STRINGS.items()}
+
+    mand = _mandatory(ctx)
+
+    def record(tag, shift):
+        values = dict(mand)
+        for k, idx in STR_OF.items():
+            values[k] = idx
+        seg = {'lp': 110, 'p': {'rs': 111, 't': [112, 113], 'tn': 113, 'ty': 114, 'w': ctx.int(tag + 'w'), 'p': ctx.int(tag + 'p')},
+               'a': {'a': 3, 'p': 0, 'c': 2, 'or': 115}}
+        values['dm'] = {'pc': 1, 's': ctx.int(tag + 'state'), 'seg': [seg]}
+        return values
+    try:
+        if st['first'] == 'same-indices':
+            OsLogEvent.from_raw_log_event(record('x', 0), A)
+        elif st['first'] == 'other-indices':
+            ev = record('x', 0)
+            ev['dm']['seg'][0]['p'].update({'rs': 110, 't': [115], 'tn': 112, 'ty': 112})
+            OsLogEvent.from_raw_log_event(ev, A)
+        lg = OsLogEvent.from_raw_log_event(record('y', 0), B)
+    except Exception as e:      # noqa
+        __import__('vxlib.symx.core', fromlist=['x']).proxy_rejected(e)
+        ctx.check('C16/two-tables/decodes', False, '%s: %s' % (type(e).__name__, e)); ctx.reach(); return
+    L = 'C16/two-tables'
+    ctx.check(L + '/composed-message', lg.composed_message == B[101])
+    for k, idx in STR_OF.items():
+        field, _ = O.OPTIONAL[k]
+        ctx.check(L + '/' + k, getattr(lg, field) == B[idx], '%s is %r' % (field, getattr(lg, field)))
+    segs = (lg.decomposed_message or {}).get('segments', [])
+    ctx.check(L + '/segments', len(segs) == 1)
+    if segs:
+        s = segs[0]
+        ph = s.get('placeholder', {})
+        ctx.check(L + '/literal-prefix', s.get('literal_prefix') == B[110], repr(s.get('literal_prefix')))
+        ctx.check(L + '/placeholder/raw_string', ph.get('raw_string') == B[111], repr(ph.get('raw_string')))
+        ctx.check(L + '/placeholder/tokens', ph.get('tokens') == [B[112], B[113]], repr(ph.get('tokens')))
+        ctx.check(L + '/placeholder/type_namespace', ph.get('type_namespace') == B[113], repr(ph.get('type_namespace')))
+        ctx.check(L + '/placeholder/type', ph.get('type') == B[114], repr(ph.get('type')))
+        ar = s.get('arg', {})
+        ctx.check(L + '/argument/object_representation', ar.get('object_representation') == B[115], repr(ar))
+    ctx.reach()
+
+
 def run(ctx, st):
+    if st['kind'] == 'two-tables':
+        return run_two_tables(ctx, st)
     return {'presence': run_presence, 'ti': run_ti, 'dm': run_dm, 'dm2': run_dm2, 'date': run_date}[st['kind']](ctx, st)
 
 
